@@ -221,6 +221,13 @@ class FieldCodeGenerator:
                     expression = f'None if {self._name} is None else {expression}'
         elif isinstance(field_type, StringType):
             expression = f'"{self._hardcoded_value}"'
+        elif isinstance(field_type, BoolType):
+            if self._hardcoded_value == "true":
+                expression = "True"
+            elif self._hardcoded_value == "false":
+                expression = "False"
+            else:
+                raise RuntimeError(f'"{self._hardcoded_value}" is not a valid bool value.')
         else:
             expression = self._hardcoded_value
 
